@@ -130,3 +130,34 @@ func VerifBuildElementTree(result *AnalysisResult) []LayoutElement {
 func VerifShouldPreserveStreamOrder(fragments []text.TextFragment) bool {
 	return shouldPreserveStreamOrder(fragments)
 }
+
+// VerifDetectLeftMargin exposes (*ParagraphDetector).detectLeftMargin on lines
+// whose bounding boxes start at the given X positions (C03: a vote counted in a map).
+func VerifDetectLeftMargin(xs []float64) float64 {
+	lines := make([]Line, len(xs))
+	for i, x := range xs {
+		lines[i].BBox.X = x
+	}
+	return NewParagraphDetector().detectLeftMargin(lines)
+}
+
+// VerifDetectDominantAlignment exposes (*ParagraphDetector).detectDominantAlignment
+// on lines with the given alignments.
+func VerifDetectDominantAlignment(aligns []LineAlignment) LineAlignment {
+	lines := make([]Line, len(aligns))
+	for i, a := range aligns {
+		lines[i].Alignment = a
+	}
+	return NewParagraphDetector().detectDominantAlignment(lines)
+}
+
+// VerifDetectBodyFontSize exposes (*HeadingDetector).detectBodyFontSize on
+// paragraphs with the given average font sizes and numbers of lines.
+func VerifDetectBodyFontSize(sizes []float64, nlines []int) float64 {
+	paras := make([]Paragraph, len(sizes))
+	for i := range sizes {
+		paras[i].AverageFontSize = sizes[i]
+		paras[i].Lines = make([]Line, nlines[i])
+	}
+	return NewHeadingDetector().detectBodyFontSize(paras)
+}
